@@ -334,6 +334,9 @@ pub(crate) mod verif_pc {
 
     // ------------------------------------------------------------------ misuse (C16)
 
+    /// (not on any error path; cut out because its send loop alone exceeds the time cap)
+    fn stub_noop_send_ready<T: Config>(_this: &mut P2PSession<T>) {}
+
     /// Misuse calls return the documented error and leave the session unchanged: input for a
     /// remote/unknown handle, delay change or stats for the wrong player type.
     #[kani::proof]
@@ -341,6 +344,7 @@ pub(crate) mod verif_pc {
     #[kani::stub(crate::network::protocol::millis_since_epoch, stub_millis)]
     #[kani::stub(alloc::fmt::format, stub_format)]
     #[kani::stub(crate::network::compression::encode, stub_encode)]
+    #[kani::stub(crate::sessions::p2p_session::P2PSession::send_ready_outgoing_inputs_to_remotes, stub_noop_send_ready)]
     fn pc_misuse_errors() {
         let mut s = mk_session_ep(2, DesyncDetection::Off);
         let h: usize = kani::any();
@@ -544,4 +548,318 @@ pub(crate) mod verif_pc {
         core::mem::forget(reqs);
         core::mem::forget(s);
     }
+
+    /// queue holding frames keep..=la with symbolic values (delay 0), for the glue harnesses
+    fn queue_with(la: Frame, keep: Frame, vals: &[u8; crate::input_queue::verif_q::RING]) -> crate::input_queue::InputQueue<CfgRL> {
+        crate::input_queue::verif_q::build::<CfgRL>(la, keep, NULL_FRAME, vals, None, NULL_FRAME)
+    }
+
+    macro_rules! adjust_gamestate_shape {
+        ($name:ident, $w:expr, $sparse:expr, $c:expr, $first:expr, $saved:expr, $conf:expr) => {
+            /// adjust_gamestate (the rollback itself): exactly one LoadGameState, for the first incorrect
+            /// frame (dense) / the last saved frame (sparse), whose cell holds that frame; then the frames
+            /// up to the current one are re-advanced without gaps, every re-simulated frame but the loaded
+            /// one being saved before it is advanced (dense) / only the confirmed frame (sparse); the frame
+            /// counter ends where it started and the prediction state of every queue is reset.
+            /// (instance: window, sparse?, current, first incorrect, last saved, confirmed frame; inputs symbolic)
+            #[kani::proof]
+            #[kani::unwind(6)]
+            #[kani::stub(alloc::fmt::format, stub_format)]
+            fn $name() {
+                let w: usize = $w;
+                let c: Frame = $c;
+                let first: Frame = $first;
+                let mut s = mk_session_noep::<CfgRL>(w, $sparse, 0, DesyncDetection::Off);
+                let v0: [u8; crate::input_queue::verif_q::RING] = kani::any();
+                let v1: [u8; crate::input_queue::verif_q::RING] = kani::any();
+                let la1: Frame = c - 2; // the remote is one frame short of the last simulated frame
+                let keep = if $conf >= 1 { $conf - 1 } else { 0 };
+                vs::install(&mut s.sync_layer, c, $conf, $saved, queue_with(c - 1, keep, &v0), queue_with(la1, keep, &v1));
+                s.local_connect_status[0].last_frame = c - 1;
+                s.local_connect_status[1].last_frame = la1;
+                let ncell = w + 1;
+                let load_from: Frame = if $sparse { $saved } else { first };
+                let mut f = load_from;
+                while f < c {
+                    if !$sparse || f == load_from {
+                        vs::cell_save(&s.sync_layer, f as usize % ncell, f, kani::any());
+                    }
+                    f += 1;
+                }
+                let mut reqs: Vec<GgrsRequest<CfgRL>> = Vec::with_capacity(8);
+                s.adjust_gamestate(first, $conf, &mut reqs);
+                assert!(s.sync_layer.current_frame() == c, "C02: the frame counter ends where it started");
+                let count = (c - load_from) as usize;
+                let mut k = 0;
+                match &reqs[0] {
+                    GgrsRequest::LoadGameState { cell, frame } => {
+                        assert!(*frame == load_from && cell.frame() == load_from, "C02: load names a frame whose cell holds it");
+                        assert!(load_from <= first && load_from >= c - w as Frame, "C04: inside the window, not after the wrong frame");
+                    }
+                    _ => assert!(false, "C02: a rollback starts with the load"),
+                }
+                k += 1;
+                let mut i = 0;
+                while i < count {
+                    let fr = load_from + i as Frame;
+                    let save_expected = if $sparse { fr == $conf } else { i > 0 };
+                    if save_expected {
+                        match &reqs[k] {
+                            GgrsRequest::SaveGameState { frame, .. } => assert!(*frame == fr, "C02: save names the frame the game is at"),
+                            _ => assert!(false, "expected SaveGameState"),
+                        }
+                        k += 1;
+                    }
+                    match &reqs[k] {
+                        GgrsRequest::AdvanceFrame { inputs } => {
+                            assert!(inputs.len() == 2);
+                            assert!(inputs[0] == (v0[fr as usize % crate::input_queue::verif_q::RING], InputStatus::Confirmed));
+                            if fr <= la1 {
+                                assert!(inputs[1] == (v1[fr as usize % crate::input_queue::verif_q::RING], InputStatus::Confirmed), "C01: re-simulation uses the real input");
+                            } else {
+                                assert!(inputs[1] == (v1[la1 as usize % crate::input_queue::verif_q::RING], InputStatus::Predicted));
+                            }
+                        }
+                        _ => assert!(false, "expected AdvanceFrame"),
+                    }
+                    k += 1;
+                    i += 1;
+                }
+                assert!(reqs.len() == k, "no further request");
+                kani::cover!(true, "rollback executed");
+                core::mem::forget(reqs);
+                core::mem::forget(s);
+            }
+        };
+    }
+    adjust_gamestate_shape!(pc_adjust_dense_w2_back1, 2, false, 9, 8, 8, 7);
+    adjust_gamestate_shape!(pc_adjust_dense_w2_back2, 2, false, 9, 7, 8, 7);
+    adjust_gamestate_shape!(pc_adjust_dense_w3_back3, 3, false, 17, 14, 16, 14);
+    adjust_gamestate_shape!(pc_adjust_sparse_w2_back2, 2, true, 9, 8, 7, 7);
+    adjust_gamestate_shape!(pc_adjust_sparse_w3_back3, 3, true, 17, 16, 14, 15);
+
+    /// Lockstep advance (prediction window 0; registration and spectator feed stubbed): a frame is
+    /// simulated iff every connected player's input for it has arrived, with the stored inputs as
+    /// Confirmed (blank/Disconnected for players disconnected as of an earlier frame); never a Save or
+    /// Load; a stalled call returns nothing and leaves the frame unchanged.
+    #[kani::proof]
+    #[kani::unwind(6)]
+    #[kani::stub(alloc::fmt::format, stub_format)]
+    #[kani::stub(crate::sessions::p2p_session::P2PSession::send_confirmed_inputs_to_spectators, stub_noop_spectators)]
+    #[kani::stub(crate::sessions::p2p_session::P2PSession::register_local_inputs, stub_register)]
+    fn pc_lockstep_frame() {
+        let mut s = mk_session_noep::<CfgRL>(0, false, 0, DesyncDetection::Off);
+        let c: Frame = 9;
+        let v0: [u8; crate::input_queue::verif_q::RING] = kani::any();
+        let v1: [u8; crate::input_queue::verif_q::RING] = kani::any();
+        let ahead: Frame = kani::any(); // how far the remote's inputs reach: c-1 (missing) .. c+1
+        kani::assume(ahead >= -1 && ahead <= 1);
+        let la1 = c + ahead;
+        vs::install(&mut s.sync_layer, c, c - 1, NULL_FRAME, queue_with(c, c - 2, &v0), queue_with(la1, c - 2, &v1));
+        s.local_connect_status[0].last_frame = c;
+        let dropped: bool = kani::any();
+        let cut: Frame = kani::any();
+        kani::assume(cut >= c - 2 && cut <= la1);
+        s.local_connect_status[1] = ConnectionStatus { disconnected: dropped, last_frame: if dropped { cut } else { la1 } };
+        let mut reqs: Vec<GgrsRequest<CfgRL>> = Vec::with_capacity(4);
+        s.advance_lockstep_frame(&mut reqs);
+        let have_all = dropped || la1 >= c;
+        if have_all {
+            assert!(reqs.len() == 1 && s.sync_layer.current_frame() == c + 1);
+            match &reqs[0] {
+                GgrsRequest::AdvanceFrame { inputs } => {
+                    assert!(inputs[0] == (v0[c as usize % crate::input_queue::verif_q::RING], InputStatus::Confirmed));
+                    if dropped && cut < c {
+                        assert!(inputs[1] == (0, InputStatus::Disconnected));
+                    } else {
+                        assert!(inputs[1] == (v1[c as usize % crate::input_queue::verif_q::RING], InputStatus::Confirmed), "C04: lockstep only uses confirmed inputs");
+                    }
+                }
+                _ => assert!(false, "C04: lockstep never saves or loads"),
+            }
+        } else {
+            assert!(reqs.is_empty() && s.sync_layer.current_frame() == c, "C04: a stalled call changes nothing");
+        }
+        kani::cover!(!have_all, "stall");
+        kani::cover!(dropped && cut == c, "dropped, but its last real input is for this frame");
+        core::mem::forget(reqs);
+        core::mem::forget(s);
+    }
+
+    // ------------------------------------------------------------------ local inputs, delay changes, spectator feed (C11, C17, C18, C06)
+
+    static SENT_N: AtomicUsize = AtomicUsize::new(0);
+    static SENT_F: [AtomicI32; 6] = [AtomicI32::new(-9), AtomicI32::new(-9), AtomicI32::new(-9), AtomicI32::new(-9), AtomicI32::new(-9), AtomicI32::new(-9)];
+    static SENT_PLAYERS: [AtomicUsize; 6] = [AtomicUsize::new(0), AtomicUsize::new(0), AtomicUsize::new(0), AtomicUsize::new(0), AtomicUsize::new(0), AtomicUsize::new(0)];
+    /// Recorder standing in for `UdpProtocol::send_input` (its own contract: u_send_input_packet_shape):
+    /// notes the frame and how many players' inputs each call carries.
+    fn stub_send_input<T: Config>(
+        _this: &mut crate::network::protocol::UdpProtocol<T>,
+        inputs: &HashMap<PlayerHandle, PlayerInput<T::Input>>,
+        _cs: &[ConnectionStatus],
+    ) {
+        let n = SENT_N.load(Ordering::Relaxed);
+        assert!(n < 6);
+        let mut frame = NULL_FRAME;
+        for (_, pi) in inputs.iter() {
+            frame = pi.frame;
+        }
+        SENT_F[n].store(frame, Ordering::Relaxed);
+        SENT_PLAYERS[n].store(inputs.len(), Ordering::Relaxed);
+        SENT_N.store(n + 1, Ordering::Relaxed);
+    }
+    fn stub_send_all<T: Config>(_this: &mut crate::network::protocol::UdpProtocol<T>, _socket: &mut Box<dyn NonBlockingSocket<T::Address>>) {}
+    fn sent_n() -> usize {
+        SENT_N.load(Ordering::Relaxed)
+    }
+    fn sent_frame(i: usize) -> Frame {
+        SENT_F[i].load(Ordering::Relaxed)
+    }
+
+    /// two local players 0,1 and one remote player 2 at address 9 (Running endpoint)
+    fn mk_session_two_locals(w: usize) -> P2PSession<CfgRL> {
+        let mut reg = PlayerRegistry::<CfgRL> { handles: HashMap::new(), remotes: HashMap::new(), spectators: HashMap::new() };
+        reg.handles.insert(0, PlayerType::Local);
+        reg.handles.insert(1, PlayerType::Local);
+        reg.handles.insert(2, PlayerType::Remote(9));
+        reg.remotes.insert(9, vu::mk_ep::<CfgRL>(vec![2], 3, 2, w, true));
+        let mut s = P2PSession::<CfgRL>::new(3, w, Box::new(NullSocket), reg, false, DesyncDetection::Off, 0, 60);
+        s.state = SessionState::Running;
+        s
+    }
+
+    /// register_local_inputs with two local players: each player's pending input goes into its own
+    /// queue and newest-frame bookkeeping; if one player's submission is dropped (its delay was
+    /// lowered and the queue has not caught up) the OTHER player's input is still registered; a frame
+    /// is handed to the remote endpoint exactly when both players' inputs for it are known, and
+    /// nothing of it stays behind in the outgoing buffer.
+    #[kani::proof]
+    #[kani::unwind(6)]
+    #[kani::stub(crate::network::protocol::millis_since_epoch, stub_millis)]
+    #[kani::stub(alloc::fmt::format, stub_format)]
+    #[kani::stub(crate::network::protocol::UdpProtocol::send_input, stub_send_input)]
+    #[kani::stub(crate::network::protocol::UdpProtocol::send_all_messages, stub_send_all)]
+    fn x_register_two_local_players() {
+        let mut s = mk_session_two_locals(2);
+        let c: Frame = 5;
+        let v0: [u8; crate::input_queue::verif_q::RING] = kani::any();
+        let v1: [u8; crate::input_queue::verif_q::RING] = kani::any();
+        // player A (handle a) is in steady state at delay 0; player B's delay was lowered from 1 to 0 in
+        // the previous tick, so its queue is one frame ahead and drops this submission
+        let a: usize = if kani::any() { 0 } else { 1 };
+        let b: usize = 1 - a;
+        let qa = queue_with(c - 1, 2, &v0);
+        let qb = crate::input_queue::verif_q::build_lagging::<CfgRL>(c, 2, &v1); // newest frame c, newest user frame c-1
+        let vals2: [u8; crate::input_queue::verif_q::RING] = kani::any();
+        if a == 0 {
+            vs::install3(&mut s.sync_layer, c, 3, 4, qa, qb, queue_with(c - 1, 2, &vals2));
+        } else {
+            vs::install3(&mut s.sync_layer, c, 3, 4, qb, qa, queue_with(c - 1, 2, &vals2));
+        }
+        s.local_connect_status[a].last_frame = c - 1;
+        s.local_connect_status[b].last_frame = c;
+        s.local_connect_status[2].last_frame = c - 1;
+        s.last_sent_outgoing_input_frame = c - 1;
+        // B's input for frame c was queued last tick and waits for A's
+        s.outgoing_local_inputs.entry(c).or_default().insert(b, PlayerInput::new(c, v1[c as usize % crate::input_queue::verif_q::RING]));
+        let ia: u8 = kani::any();
+        let ib: u8 = kani::any();
+        assert!(s.add_local_input(a, ia).is_ok() && s.add_local_input(b, ib).is_ok());
+        s.register_local_inputs();
+        let qa2 = vs::queue(&s.sync_layer, a);
+        let qb2 = vs::queue(&s.sync_layer, b);
+        assert!(crate::input_queue::verif_q::la(qa2) == c, "the other local player's input is registered");
+        assert!(crate::input_queue::verif_q::slot(qa2, c) == (c, ia));
+        assert!(crate::input_queue::verif_q::la(qb2) == c, "the lagging player's submission is dropped");
+        assert!(s.local_connect_status[a].last_frame == c && s.local_connect_status[b].last_frame == c);
+        // frame c is complete now: handed to the endpoint once, nothing stranded
+        assert!(sent_n() == 1 && sent_frame(0) == c && SENT_PLAYERS[0].load(Ordering::Relaxed) == 2);
+        assert!(s.last_sent_outgoing_input_frame == c);
+        assert!(s.outgoing_local_inputs.is_empty(), "C11/C18: no input stranded in the outgoing buffer");
+        kani::cover!(a == 1, "the lagging player has the lower handle");
+        kani::cover!(a == 0, "the lagging player has the higher handle");
+        core::mem::forget(s);
+    }
+
+    /// local player 0 (steady state: newest frame la at delay d0) + remote player 1 with a Running endpoint
+    fn session_for_delay(d0: usize, la: Frame, vals: &[u8; crate::input_queue::verif_q::RING]) -> P2PSession<CfgRL> {
+        let mut s = mk_session_ep(2, DesyncDetection::Off);
+        let c = la - d0 as Frame + 1;
+        let q0 = crate::input_queue::verif_q::build_delayed::<CfgRL>(la, 2, d0, vals);
+        let empty: [u8; crate::input_queue::verif_q::RING] = [0; crate::input_queue::verif_q::RING];
+        vs::install(&mut s.sync_layer, c, 3, c - 1, q0, queue_with(c - 1, 2, &empty));
+        s.local_connect_status[0].last_frame = la;
+        s.local_connect_status[1].last_frame = c - 1;
+        s.last_sent_outgoing_input_frame = la;
+        s
+    }
+
+    macro_rules! delay_change {
+        ($name:ident, $d1:expr, $d2:expr) => {
+            /// C11 at session level (send_input replaced by a recorder): delay changes from steady state
+            /// (delay 1) - one change, or two before the next submission - then the next tick's input:
+            /// the frames handed to the endpoint start right after the last sent one, are gapless, each
+            /// once, up to the frame the new input lands on; the owner's queue holds the repeated last
+            /// input for the frames an increase opened up; a decrease sends nothing until the queue has
+            /// caught up; newest-frame bookkeeping matches and nothing is stranded in the outgoing buffer.
+            /// (instance: the delay values; input values symbolic)
+            #[kani::proof]
+            #[kani::unwind(8)]
+            #[kani::stub(crate::network::protocol::millis_since_epoch, stub_millis)]
+            #[kani::stub(alloc::fmt::format, stub_format)]
+            #[kani::stub(crate::network::protocol::UdpProtocol::send_input, stub_send_input)]
+            #[kani::stub(crate::network::protocol::UdpProtocol::send_all_messages, stub_send_all)]
+            fn $name() {
+                let d0: usize = 1;
+                let la: Frame = 6;
+                let vals: [u8; crate::input_queue::verif_q::RING] = kani::any();
+                let mut s = session_for_delay(d0, la, &vals);
+                let c = s.current_frame();
+                assert!(s.set_input_delay(0, $d1).is_ok());
+                let d2: i32 = $d2;
+                let d_final: usize = if d2 >= 0 {
+                    assert!(s.set_input_delay(0, d2 as usize).is_ok());
+                    d2 as usize
+                } else {
+                    $d1
+                };
+                let v: u8 = kani::any();
+                assert!(s.add_local_input(0, v).is_ok());
+                s.register_local_inputs();
+                delay_postcondition(&s, la, c, d_final, v, vals[la as usize % crate::input_queue::verif_q::RING]);
+                kani::cover!(true, "reached");
+                core::mem::forget(s);
+            }
+        };
+    }
+    delay_change!(pc_delay_1_to_0, 0, -1);
+    // (instances with an increase - 1->2, 1->3, 1->2->3, 1->0->2, 1->3->1 - exceed 20 min of symbolic execution
+    //  because of the outgoing-input loop; the fill contract is decided at queue level: q_delay_*)
+
+    fn delay_postcondition(s: &P2PSession<CfgRL>, la: Frame, c: Frame, d_final: usize, v: u8, newest: u8) {
+        let q0 = vs::queue(&s.sync_layer, 0);
+        let target = c + d_final as Frame;
+        if target <= la {
+            // the submission is dropped until the queue has caught up: nothing new may be sent
+            assert!(crate::input_queue::verif_q::la(q0) == la);
+            assert!(sent_n() == 0);
+            assert!(s.local_connect_status[0].last_frame == la);
+        } else {
+            assert!(crate::input_queue::verif_q::la(q0) == target);
+            let n = (target - la) as usize;
+            assert!(sent_n() == n, "C11: every frame up to the new one is sent, each once");
+            let mut i = 0;
+            while i < n {
+                let f = la + 1 + i as Frame;
+                assert!(sent_frame(i) == f, "C11: the stream stays gapless");
+                let want = if f == target { v } else { newest };
+                assert!(crate::input_queue::verif_q::slot(q0, f) == (f, want), "C11: an increase repeats the last input for the frames it opens up");
+                i += 1;
+            }
+            assert!(s.local_connect_status[0].last_frame == target);
+            assert!(s.last_sent_outgoing_input_frame == target);
+        }
+        assert!(s.outgoing_local_inputs.is_empty(), "C11: nothing stranded in the outgoing buffer");
+    }
+
 }
